@@ -88,6 +88,29 @@ def run(tier: str, seed: int, t0: float) -> int:
             tid += 1
             sessions.run_session(b, og, rd, tid, rng.randint(1, 8))
         jobs.append(("Trace_Transform", b, f"T sessions[{name}]"))
+    # ---- G+T: exhaustive small scope, one mark operation per session: every TLC-generated document with
+    # differently attributed links next to each other x every range x add/remove of excluding marks
+    from prosemirror.transform import Transform
+    LU = {"t": "link", "a": "{\"href\":\"u\"}"}
+    LV = {"t": "link", "a": "{\"href\":\"v\"}"}
+    gbm = universe.bounds(4 if not thorough else 5, max_run=1, marksets=((), (universe.EM,), (LU,), (LV,), (LU, universe.EM)))
+    schm, jsm, mdocs = universe.tlc_docs("s1t", gbm, stats)
+    bm = trace.Batch(jsm)
+    marks_m = [schm.marks["em"].create(), schm.marks["link"].create({"href": "w"}), schm.marks["link"].create({"href": "u"})]
+    sel_m = mdocs if thorough or len(mdocs) <= 250 else rng.sample(mdocs, 250)
+    for d in sel_m:
+        rd = proj.unproj(schm, d)
+        n = rd.content.size
+        for f in range(n + 1):
+            for t in range(f + 1, n + 1):
+                for m in marks_m:
+                    for which in ("add", "remove"):
+                        tid += 1
+                        tr = Transform(rd)
+                        bm.add({"ev": "Begin", "tid": tid, "seq": 0, "doc": bm.doc(d), "ra": proj.pattrs(rd.attrs)})
+                        res = ops.run_op((lambda: tr.add_mark(f, t, m)) if which == "add" else (lambda: tr.remove_mark(f, t, m)))
+                        sessions.observe(bm, tr, tid, 1, which + "_mark", {"from": f, "to": t, "mark": proj.pmark(m)}, res)
+    jobs.append(("Trace_Transform", bm, "G+T mark histories[s1t]"))
     # ---- T single-step inverse under every schema
     for name in schemas.BUNDLED_PLUS + ["s1", "s3", "s4"]:
         sch, js, pairs = universe.random_docs(name, n_docs, rng)
